@@ -71,6 +71,6 @@ mutual
 end
 
 /-- `v` is a value of message type `t` -/
-def hasType (t : Ty) (v : Val) : Bool := hasField [] .plain t v
+def hasType (t : Ty) (v : Val) : Bool := !v.isCounter && hasField [] .plain t v
 
 end Prophy
